@@ -64,6 +64,12 @@ def opsC19 : List (String × Handler) := [
         | .panic _ => "panic"
       | _, _, _, _ => "bad-op"
     | _ => "bad-op"),
+  -- tc.domain <configured hex> <presented hex>: StaticDomain(configured)(presented)
+  ("tc.domain", fun
+    | [c, p] => match hexArg c, hexArg p with
+      | some c, some p => if staticDomain c p then "1" else "0"
+      | _, _ => "bad-op"
+    | _ => "bad-op"),
   -- tc.parse <known> <stateinit>: ParseStateInit
   ("tc.parse", fun
     | [known, si] => match parseKnown known, parseStateInitArg si with
@@ -83,7 +89,9 @@ def opsC19 : List (String × Handler) := [
           | none => "bad-op"
           | some sigv =>
             let env : Env := { nowNs := now, lifeProof := life, payloadOk := pok == "1",
-                               domainOk := if dok == "e" then none else some (dok == "1"),
+                               domainOk := if dok == "e" then none
+                                 else if dok.startsWith "s:" then (hexArg (dok.drop 2).toString).map fun c => staticDomain c dom
+                                 else some (dok == "1"),
                                getter := getter, known := known }
             let p : ProofIn := { address := addr, ts := ts, domain := dom, signature := sigv, payload := payload,
                                  stateInitEmpty := siEmpty, stateInit := b }
